@@ -46,7 +46,7 @@ class Recorder:
 
 class C06(Prop):
   id = "C06"
-  quick_examples = 500
+  quick_examples = 1500
   thorough_examples = 6000
   rule = ("Generated histories against the real ActiveFabric under the deterministic scheduler "
           "(delivery threads pre-empted at every line of miros/activeobject.py; generated schedule "
